@@ -299,6 +299,24 @@ class Sim:
                     ok = any(ref_match(scope, s, rname) for s in srv['scopes'])
                 if ok:
                     expect_out.append(('ProbeMatches', epr))
+        elif kind == 'probe-rebound':
+            # the same lexical QName list as a normal Probe for T1 (ns0:T1), but the prefix is bound to another namespace
+            # (binding 'other') or another prefix is bound to the right namespace (binding 'same'): QNames are compared by
+            # (namespace, local name), never by their text
+            _, binding = ev
+            payload = wsd_types.ProbeType()
+            payload.Types = [etree.QName('urn:t', 'T1')]
+            mid, data = self._mk(payload, False)
+            if binding == 'other':
+                data = data.replace(b'xmlns:ns0="urn:t">ns0:T1<', b'xmlns:ns0="urn:not-t">ns0:T1<')
+                wanted_ns = 'urn:not-t'
+            else:
+                data = data.replace(b'xmlns:ns0="urn:t">ns0:T1<', b'xmlns:q="urn:t">q:T1<')
+                wanted_ns = 'urn:t'
+            self.deliver(data)
+            for epr, srv in sorted(self.local.items()):
+                if wanted_ns == 'urn:t' and 'T1' in srv['types']:
+                    expect_out.append(('ProbeMatches', epr))
         elif kind == 'resolve':
             payload = wsd_types.ResolveType()
             payload.EndpointReference.Address = ev[1]
@@ -430,7 +448,7 @@ def alphabet(quick):
         evs.append((kind, 'A', 3, 'full', False))
     if quick:
         evs += [('hello', 'B', 1, 'full', True), ('pmatch', 'B', 2, 'full', True)]
-    evs += [('publish2', 'A'), ('probe', None, 'http://a.b/A/second', None),
+    evs += [('probe-rebound', 'other'), ('probe-rebound', 'same'), ('publish2', 'A'), ('probe', None, 'http://a.b/A/second', None),
             ('probe', None, 'http://a.b/A/x', 'http://docs.oasis-open.org/ws-dd/ns/discovery/2009/01/strcmp0')]
     evs += [('bye', 'A'), ('bye', 'B'), ('repeat',), ('repeat', 2), ('callback', 'raises'), ('callback', 'ok'), ('publish', 'A'), ('publish', 'B'), ('clear', 'A'),
             ('probe', None, None, None), ('probe', ['T1'], None, None), ('probe', ['T9'], None, None),
@@ -505,6 +523,9 @@ def run(ctx):
     # publish, publish again with other scopes (in both orders), then every probe
     probes = [e for e in evs if e[0] == 'probe']
     jobs += [[('publish', 'A'), ('publish2', 'A'), pr] for pr in probes] + [[('publish2', 'A'), ('publish', 'A'), pr] for pr in probes]
+    # a Probe for a type, then Probes with the same / another text for the same / another QName, in every order
+    tp = [('probe', ['T1'], None, None), ('probe-rebound', 'other'), ('probe-rebound', 'same'), ('probe', ['T9'], None, None)]
+    jobs += [[('publish', 'A')] + list(t) for t in itertools.permutations(tp, 3)]
     ann = [e for e in evs if e[0] in ('hello', 'pmatch', 'rmatch')]
     second = [e for e in evs if e[0] in ('bye', 'hello', 'probe') and (len(e) < 4 or e[3] == 'full')]
     for mode in ('raises', 'ok'):
